@@ -357,6 +357,33 @@ def rule_SL(ctx, tier):
             rr.ok("stored size looked up for the request's uuid")
         else:
             rr.fail("charge:uuid", "stored blob size looked up for `%s`" % og.show(arg_origin(ctx, b, bb, 1)), where=b.line_of(bb))
+    for bb, t in b.calls():
+        last = (call_target(t) or "").split("::")[-1]
+        if last in ("map_or", "unwrap_or") and "Option" in (call_target(t) or "") and has_call(arg_origin(ctx, b, bb, 0), "DBM::get_appointment_length"):
+            d_ = const_of(arg_origin(ctx, b, bb, 1))
+            if d_ and d_[0] == 0:
+                rr.ok("nothing stored under this uuid counts as 0 slots already paid")
+            else:
+                rr.fail("charge:default-used", "when nothing is stored under the uuid the slots already paid for default to `%s`, not 0: a new appointment is charged less than it takes" % og.show(arg_origin(ctx, b, bb, 1))[:60], where=b.line_of(bb))
+    # delete_appointments: the single-statement shortcut (no transaction) is taken only for exactly one appointment and nobody to refund
+    da = P.bodies.get(GK + "delete_appointments")
+    if da is not None:
+        from .rulekit import rel_of_term
+        for bb in sites(da, DBM + "remove_appointment"):
+            one = nobody = False
+            for f in facts_at(ctx, da, bb):
+                if f[0] != "truth":
+                    continue
+                if f[2] is True and has_call(f[1], "is_empty") and has_call(f[1], "HashMap"):
+                    nobody = True
+                for op, l, r in rel_of_term(f[1], f[2]):
+                    k_ = const_of(r)
+                    if op == "Eq" and k_ and k_[0] == 1 and has_call(l, "len") and ("param", da.id, 2) in list(og.walk(l)):
+                        one = True
+            if one and nobody:
+                rr.ok("single-delete shortcut only for one appointment and no refund")
+            else:
+                rr.fail("delete:shortcut-guard", "Gatekeeper::delete_appointments takes the single-statement shortcut `remove_appointment(appointments[0])` on a path where %s: the other appointments of the list stay in the database (their slots stay taken), or the refund computed in memory is never written" % ("the list is not known to hold exactly one appointment" if not one else "there may be users to refund"), where=da.line_of(bb))
     # returned = written = persisted
     up = sites(b, DBM + "update_user")
     for bb in up:
